@@ -249,7 +249,7 @@ func genFee(t *rapid.T, label string) string {
 
 var defaultWeights = map[string]int{
 	"send": 30, "cancel": 7, "reqbatch": 7, "deposit": 4, "transfer": 6, "exec": 4,
-	"tick": 2, "hb": 1, "relay": 5, "block": 24, "burst": 0, "xexec": 14, "xtick": 7, "send2": 4, "hostile": 0, "oprice": 0, "oholders": 0, "sign": 0, "byz": 0, "xround": 0, "xlag": 0, "xwhale": 0, "ss0": 0, "xbyzexec": 0, "xbyzdep": 0, "xtopfee": 0, "xfull": 0, "xexpire": 0,
+	"tick": 2, "hb": 1, "relay": 5, "block": 24, "burst": 0, "xexec": 14, "xtick": 7, "send2": 4, "hostile": 0, "oprice": 0, "oholders": 0, "sign": 0, "byz": 0, "xround": 0, "xlag": 0, "xwhale": 0, "ss0": 0, "xbyzexec": 0, "xbyzdep": 0, "xtopfee": 0, "xfull": 0, "xexpire": 0, "xdelist": 0,
 }
 
 // GenOps draws the operation list for a configuration.
@@ -267,7 +267,7 @@ func GenOps(t *rapid.T, cfg sim.Config, o GenOpts) []Op {
 	if o.Bursts && w["burst"] == 0 {
 		w["burst"] = 2
 	}
-	kinds := []string{"send", "cancel", "reqbatch", "deposit", "transfer", "exec", "tick", "hb", "relay", "block", "burst", "xexec", "xtick", "send2", "hostile", "oprice", "oholders", "sign", "byz", "xround", "xlag", "xwhale", "ss0", "xbyzexec", "xbyzdep", "xtopfee", "xfull", "xexpire"}
+	kinds := []string{"send", "cancel", "reqbatch", "deposit", "transfer", "exec", "tick", "hb", "relay", "block", "burst", "xexec", "xtick", "send2", "hostile", "oprice", "oholders", "sign", "byz", "xround", "xlag", "xwhale", "ss0", "xbyzexec", "xbyzdep", "xtopfee", "xfull", "xexpire", "xdelist"}
 	total := 0
 	for _, k := range kinds {
 		total += w[k]
@@ -463,6 +463,12 @@ func GenOps(t *rapid.T, cfg sim.Config, o GenOpts) []Op {
 			op.C = chainGen.Draw(t, "c")
 			op.D = denomGen.Draw(t, "d")
 			op.R = rapid.IntRange(0, 3).Draw(t, "r")
+		case "xdelist":
+			op.U = rapid.IntRange(0, 2).Draw(t, "u")
+			op.C = chainGen.Draw(t, "c")
+			op.D = denomGen.Draw(t, "d")
+			op.R = rapid.IntRange(0, 3).Draw(t, "r")
+			op.N = rapid.IntRange(0, 1).Draw(t, "n")
 		case "xtopfee":
 			op.U = rapid.IntRange(0, 2).Draw(t, "u")
 			op.C = chainGen.Draw(t, "c")
